@@ -170,6 +170,7 @@ void convertCheck(const std::string& bytes, const std::string& src, uint64_t see
 	std::string what = src + fmt(" %s opts{parallax=%d bounds=%d bsx=%d flags=%d head=%d}", dir.c_str(), o.removeParallax, o.calcBounds, o.fixBSXFlags, o.fixShaderFlags, o.headParts);
 	R_caseDesc(what);
 	NifFile a;
+	if (seed % 3 == 1) { Rng hr(seed ^ 0x0B7); what += " {object " + useObject(a, hr) + "}"; R_caseDesc(what); }   // the converted object has held another model before
 	loadNif(a, bytes);
 	R_phase("OptimizeFor");
 	OptResult res = a.OptimizeFor(o);
